@@ -47,6 +47,19 @@ def run_entry(entry, tier='quick'):
                         hit = True
                 detail.append('%s rc=%d' % (pid, rc))
             outcome = 'caught' if hit else 'MISSED'
+        elif entry.get('kind') == 'rewrite':
+            unread = set(entry.get('unreadable_for', []))
+            worst = 'silent'
+            for pid, rc, out in outs:
+                detail.append('%s rc=%d' % (pid, rc))
+                if rc == 0:
+                    continue
+                if rc == 2 and pid in unread and 'VIOLATION property=' not in out:
+                    worst = 'unreadable' if worst == 'silent' else worst
+                else:
+                    worst = 'FALSE-ALARM'
+                    detail += [l for l in out.splitlines() if l.startswith(('   rule=', 'ANALYSIS-BROKEN'))][:3]
+            outcome = worst
         else:
             silent = all(rc == 0 for _, rc, _ in outs)
             outcome = 'silent' if silent else 'FALSE-ALARM'
@@ -59,8 +72,37 @@ def run_entry(entry, tier='quick'):
         shutil.rmtree(tmp, ignore_errors=True)
 
 
+def load_rewrites():
+    """refactors/<id>/: behaviour-preserving rewrites by independent agents (DESIGN 11.6, tenth and eleventh round).  Expected:
+    the property's check stays silent; the few whose form a rule cannot read (recorded in meta.json by the last
+    `refactor_tool.py recheck`) end analysis-broken - never a VIOLATION."""
+    out = []
+    d = os.path.join(report.VERIF, 'refactors')
+    if not os.path.isdir(d):
+        return out
+    for rid in sorted(os.listdir(d)):
+        mp = os.path.join(d, rid, 'meta.json')
+        if not os.path.exists(mp):
+            continue
+        m = json.load(open(mp))
+        patch = os.path.join(d, rid, 'patch-rebased.diff')
+        if not os.path.exists(patch):
+            patch = os.path.join(d, rid, 'patch.diff')
+        props = [m['property']] if m.get('property', '*') != '*' else ['C%02d' % i for i in range(1, 21)]
+        unread = sorted(k for k, r in (m.get('checks_not_silent') or {}).items() if isinstance(r, dict) and r.get('exit') == 2)
+        out.append({'id': 'rewrite:' + rid, 'patch': patch, 'properties': props, 'kind': 'rewrite', 'unreadable_for': unread,
+                    'note': 'independent behaviour-preserving rewrite', 'all_props': m.get('property', '*') == '*'})
+    return out
+
+
 def run_all(select=None, jobs=8):
     idx = [e for e in load_index() if not select or e['id'] in select or set(e['properties']) & set(select)]
+    for e in load_rewrites():
+        if not select or e['id'] in select or set(e['properties']) & set(select):
+            sel_props = [x for x in (select or []) if len(x) == 3 and x[0] == 'C' and x[1:].isdigit()]
+            if sel_props and e.get('all_props') and e['id'] not in (select or []):
+                e = dict(e, properties=[x for x in e['properties'] if x in sel_props])
+            idx.append(e)
     with ThreadPoolExecutor(max_workers=jobs) as ex:
         return list(ex.map(run_entry, idx))
 
@@ -69,7 +111,7 @@ def main(argv):
     res = run_all(argv or None)
     bad = 0
     for r in res:
-        flag = r['outcome'] in ('caught', 'silent')
+        flag = r['outcome'] in ('caught', 'silent', 'unreadable')
         if not flag and r['outcome'] != 'patch-does-not-apply':
             bad += 1
         print('%-28s %-22s %s  %s' % (r['id'], r['outcome'], ','.join(r['properties']), r.get('detail', '')[:200]))
